@@ -1217,8 +1217,8 @@ m4_define(`m4_linear_partition_for_polyhedron_domains',
       = static_cast<const C_@CPP_CLASS@&>(*to_const(y));
     std::pair<C_@CPP_CLASS@|COMMA| Pointset_Powerset<NNC_Polyhedron> >
       r = linear_partition(xx, yy);
-    // The results are returned through new heap-allocated objects
-    // (owned by the caller), not through pointers into the local pair.
+    // The results are returned through new heap-allocated objects owned
+    // by the caller (and not through pointers into the local pair).
     C_@CPP_CLASS@* const inters = new C_@CPP_CLASS@(r.first);
     Pointset_Powerset<NNC_Polyhedron>* rest;
     try {
@@ -1262,8 +1262,8 @@ m4_define(`m4_linear_partition_for_non_polyhedron_domains',
       = static_cast<const @CPP_CLASS@&>(*to_const(y));
     std::pair<@CPP_CLASS@|COMMA| Pointset_Powerset<NNC_Polyhedron> >
       r = linear_partition(xx, yy);
-    // The results are returned through new heap-allocated objects
-    // (owned by the caller), not through pointers into the local pair.
+    // The results are returned through new heap-allocated objects owned
+    // by the caller (and not through pointers into the local pair).
     @CPP_CLASS@* const inters = new @CPP_CLASS@(r.first);
     Pointset_Powerset<NNC_Polyhedron>* rest;
     try {
@@ -1295,8 +1295,8 @@ ppl_@CLASS@_approximate_@PARTITION@
     bool finite;
     std::pair<@CPP_CLASS@|COMMA| Pointset_Powerset<Grid> >
       r = approximate_partition(xx, yy, finite);
-    // The results are returned through new heap-allocated objects
-    // (owned by the caller), not through pointers into the local pair.
+    // The results are returned through new heap-allocated objects owned
+    // by the caller (and not through pointers into the local pair).
     @CPP_CLASS@* const inters = new @CPP_CLASS@(r.first);
     Pointset_Powerset<Grid>* rest;
     try {
